@@ -1,0 +1,35 @@
+//go:build verif
+
+// Contracts for the gowp verifier (/verif). Comment-only file: compiled only with -tags verif and
+// contributes no code either way.
+
+package graph
+
+//@ func (b *Builder) IsStaleEdgePolicy
+//@   props C20
+//@   let err      = retn(HasV1ChannelEdge, 4)
+//@   let isZombie = retn(HasV1ChannelEdge, 3)
+//@   let exists   = retn(HasV1ChannelEdge, 2)
+//@   ensures err != nil ==> !result
+//@   ensures err == nil && isZombie && !b.cfg.AssumeChannelValid ==> (result <==> ret(Since) > b.cfg.ChannelPruneExpiry)
+//@   ensures err == nil && isZombie && b.cfg.AssumeChannelValid && fdiv(flags, 2) % 2 == 1 ==> result
+//@   ensures err == nil && isZombie && b.cfg.AssumeChannelValid && fdiv(flags, 2) % 2 == 0 ==> (result <==> ret(Since) > b.cfg.ChannelPruneExpiry)
+//@   ensures err == nil && !isZombie && !exists ==> !result
+//@   ensures err == nil && !isZombie && exists && flags % 2 == 0 ==> (result <==> !ret(Before, 0))
+//@   ensures err == nil && !isZombie && exists && flags % 2 == 1 ==> (result <==> !ret(Before, 1))
+//@   site call HasV1ChannelEdge: assert arg(2) == ret(ToUint64)
+//@   site call ToUint64: assert arg(0) == chanID
+//@   site call Since: assert arg(0) == timestamp
+//@   site call Before nth 0: assert arg(0) == retn(HasV1ChannelEdge, 0) && arg(1) == timestamp
+//@   site call Before nth 1: assert arg(0) == retn(HasV1ChannelEdge, 1) && arg(1) == timestamp
+//@
+//@ func (b *Builder) assertNodeAnnFreshness
+//@   props C20
+//@   ensures result == nil ==> retn(HasV1Node, 2) == nil && retn(HasV1Node, 1) && ret(Before)
+//@   site call HasV1Node: assert arg(2) == node
+//@   site call Before: assert arg(0) == retn(HasV1Node, 0) && arg(1) == msgTimestamp
+//@
+//@ func (b *Builder) IsStaleNode
+//@   props C20
+//@   ensures result <==> ret(assertNodeAnnFreshness) != nil
+//@   site call assertNodeAnnFreshness: assert arg(node) == node && arg(msgTimestamp) == timestamp
